@@ -120,7 +120,7 @@ def python_layer_events():
         for kt in (KeyType.Master, KeyType.Localized, KeyType.Password):
             for n in (0, 1, 8, 15, 16, 17, 20, 24, 40):
                 for P in (None, DesKey, Aes128Key):
-                    for pn in ((1, 16, 20, 33) if P else (0,)):
+                    for pn in ((0, 1, 16, 20, 33) if P else (0,)):
                         # what the Python layer makes of the key material before it reaches the socket
                         ktn = {KeyType.Password: 0, KeyType.Master: 1, KeyType.Localized: 2}[kt]
                         ue = dict(ev="UserKeys", aalg=alg, kt=ktn, akey=list(keybytes(n, 1)), pcipher=0 if P is None else (1 if P is DesKey else 2),
@@ -128,6 +128,7 @@ def python_layer_events():
                         try:
                             u0 = User("u", auth_key=K(keybytes(n, 1), key_type=kt), priv_key=P(keybytes(pn, 2), key_type=kt) if P else None)
                             ue["outa"], ue["outp"] = list(u0.get_auth_key()), list(u0.get_priv_key()) if P else []
+                            ue["aalg_out"], ue["palg_out"] = u0.get_auth_alg() & 63, u0.get_priv_alg() & 63
                         except BaseException as e:  # noqa
                             ue["exc"], ue["bases"], ue["isexc"] = exc_info(e)
                         out.append(ue)
